@@ -19,6 +19,11 @@ def run(report, tier):
                         calls=[("imap", "list", 1, 1), ("imap", "list", 1, 1)]), b + 1, 0, None))
     plan.append((Config("U4", kind="factory", quota=1, workers=2, until_all_ready="each",
                         calls=[("imap_unordered", "list", 2, 1)]), b, 0, None))
+    # until_all_ready() between the results of a running call, i.e. while the replacement thread is at work
+    plan.append((Config("U5", kind="factory", quota=1, workers=1, until_all_ready="mid",
+                        calls=[("imap_unordered", "list", 2, 1)]), b + 1, 0, None))
+    plan.append((Config("U6", kind="factory", quota=1, workers=2, until_all_ready="mid",
+                        calls=[("imap", "list", 2, 1)]), b, 0, None))
     # faults: begin() raises in worker w; the functor raises at the j-th item
     for w in (0, 1):
         plan.append((Config("FB%d" % w, workers=2, until_all_ready=False, fault=("begin", w), family="FB",
@@ -28,6 +33,9 @@ def run(report, tier):
                             calls=[("imap", "list", 3, 1)]), b, 0, None))
     plan.append((Config("FQ", kind="factory", quota=1, workers=1, fault=("item", 101), family="FQ",
                         calls=[("imap", "list", 2, 1)]), b, 0, None))
+    # the same for an exception that is not an Exception (sys.exit() / an interrupt inside begin or the functor)
+    plan.append((Config("FBx", workers=2, fault=("begin", 0, "exit"), family="FBx", calls=[("imap", "list", 2, 1)]), b, 0, None))
+    plan.append((Config("FIx", workers=2, fault=("item", 101, "exit"), family="FIx", calls=[("imap", "list", 3, 1)]), b, 0, None))
     run_pool_check(report, "C04", plan)
 
 
